@@ -2,6 +2,9 @@
 # Full .vo build of the development (no -vos). Usage: build.sh [make targets...]
 set -e
 cd "$(dirname "$0")"
+mkdir -p ../.work
+exec 9>../.work/coq.lock
+flock 9
 {
   echo "-Q . Ont"
   echo "-arg -w -arg -notation-overridden,-deprecated-hint-without-locality,-deprecated-instance-without-locality,-deprecated-syntactic-definition"
